@@ -71,6 +71,7 @@ func (g *Gateway) HandleGatewayProtocol(w http.ResponseWriter, r *http.Request) 
 			RemoteAddr: id.GetAttribute(identity.AttrRemoteAddr).(string),
 			User:       id,
 		}
+		verifEvent("tunnel.new", t)
 	} else {
 		t = x.(*Tunnel)
 	}
